@@ -374,8 +374,15 @@ func run1(c Case) ev.Verdict {
 	defer uninstallOrder()
 
 	for round := 0; round < c.Reopen; round++ {
+		opens := s.pipe.Opens
+
 		if err = s.open(); err != nil {
 			s.pipe.Release()
+
+			if round > 0 && s.pipe.Opens == opens {
+				// a driver that refuses another session outright, without touching the transport
+				return ev.Verdict{OK: true, Infeasible: true, Classes: []string{"second-session-refused"}}
+			}
 
 			return ev.Fail("round %d: Open: %v", round, err)
 		}
@@ -414,8 +421,14 @@ func run1(c Case) ev.Verdict {
 		s.reset()
 	}
 
+	opensBefore := s.pipe.Opens
+
 	if err = s.open(); err != nil {
 		s.pipe.Release()
+
+		if c.Reopen > 0 && s.pipe.Opens == opensBefore {
+			return ev.Verdict{OK: true, Infeasible: true, Classes: []string{"second-session-refused"}}
+		}
 
 		return ev.Fail("Open: %v", err)
 	}
